@@ -155,6 +155,11 @@ C03_acked_survive(h) ==
         \A i \in DOMAIN h.post :
            /\ i \in DOMAIN h.after[k].view
            /\ NoTime(h.after[k].view)[i] = NoTime(h.post)[i]
+\* what a process that was NOT killed reported as created exists afterwards
+C03_acked_effects(h) ==
+  h.facts.crashes > 0 =>
+     \A k \in Succ(h) : (~h.procs[k].killed /\ h.procs[k].cmd.name \in {"new_task", "new_epic"} /\ h.procs[k].reply.id # "")
+                            => h.procs[k].reply.id \in DOMAIN h.post
 \* ... and it stays that way: the next commands do not resurrect half of the
 \* interrupted command (a leftover temp file, for instance)
 C04_stays(h) == C03_acked_survive(h)
